@@ -479,12 +479,14 @@ pub fn check_storeless(case: &Case, tree: &Node, src: Option<&str>, cx: &mut Ctx
         vars: vec![],
         fns: vec![],
         builtins_disabled: false,
+        aging: 0,
     };
     for kind in [CtxKind::Empty, CtxKind::EmptyBuiltins] {
         let witness_setup = Setup {
             vars: vec![],
             fns: vec![],
             builtins_disabled: kind == CtxKind::Empty,
+            aging: 0,
         };
         let rw = match run_ref(tree, &witness_setup, CtxKind::NoStore, false, case.typed, &[], cx.delegate) {
             Ok(r) => r,
